@@ -5,12 +5,16 @@ import Gallia.Model.Lifecycle
   clauses a finished run has to satisfy.  `violationsW` is executable: the harness evaluates it on the behaviour
   observed from the real code, `Proofs/C15.lean` proves it empty for the model.
 
-  What the property says about the three ways a run can end before it has started (`startOf`):
+  What the property says about the ways a run can end, or be held up, before it has started (`startOf`):
     * the lock file cannot be opened / locked: `entry_point()` returns 72 (`exitcodes.OSFILE`, outside the documented
       mapping 0 / n / 74 / 70 / 130 of runs that did start).  The property demands agreement between the exit code
       and the records of the run; with no run there must be no record that could disagree: no artifacts directory,
       no META.json, no run_meta row, no hook executed, no lifecycle point reached, no lock held afterwards, and the
       directories of earlier runs untouched.
+    * Ctrl-C while the run waits for a lock somebody else holds: the `CancelledError` leaves `entry_point()` (it is raised
+      outside the `try`), `asyncio.run` turns it into KeyboardInterrupt: the documented 130, as a signal death.  Again no
+      record of a run may exist.  (That the process cannot end before the lock is free - the blocked `flock` thread is
+      joined - is a liveness matter the property does not speak about.)
     * the lock is held by somebody else: the run waits; nothing of the above may happen before the lock is ours
       (clause `lock-not-held-during-run`), afterwards the run is an ordinary run.
     * the artifacts directory cannot be created (base not writable, a directory of that name exists): the property
@@ -119,6 +123,7 @@ def failing (c : Cfg) (s : Script) : List Hook :=
 /-- how far the prologue gets -/
 inductive Start
   | noLock     -- the lock cannot be taken: exit code 72, nothing else
+  | lockWaitInterrupted  -- Ctrl-C while waiting for the lock
   | noArtDir   -- the artifacts directory cannot be created
   | started    -- the run starts (pre-hook, database, setup ...)
   deriving DecidableEq, Repr, Inhabited
@@ -127,6 +132,7 @@ def nameTaken (w : World) : Bool := w.runs.any (·.name == w.now)
 
 def startOf (w : World) (c : Cfg) : Start :=
   if c.lock && w.lock == .broken then .noLock
+  else if c.lock && w.lock == .interrupted then .lockWaitInterrupted
   else if c.art && (!w.baseOk || nameTaken w) then .noArtDir
   else .started
 
@@ -183,6 +189,15 @@ def violationsW (w : World) (c : Cfg) (s : Script) (f : Final) : List String :=
     ++ chk f.dbClosed "db-left-open"
     ++ chk f.logClosed "log-left-open"
     ++ chk f.lockReleased "lock-held"
+    ++ chk (f.trace == [] && !f.preRan && f.postEnv == none && f.reports == []) "ran-without-lock"
+  | .lockWaitInterrupted =>
+    -- Ctrl-C: 130 - at this level either returned or as the CancelledError that `asyncio.run` turns into
+    -- KeyboardInterrupt (the interpreter then dies by SIGINT); the run has not started, so no record of it may exist
+    chk (f.exit == .escLockWait || f.exit == .ret 130) "exit-code"
+    ++ chk (f.metaFile == none && f.artDir == none && f.runs == w.runs) "record-of-a-run-that-did-not-start"
+    ++ chk (f.dbRow == .absent) "db-unexpected"
+    ++ chk f.dbClosed "db-left-open"
+    ++ chk f.logClosed "log-left-open"
     ++ chk (f.trace == [] && !f.preRan && f.postEnv == none && f.reports == []) "ran-without-lock"
   | .noArtDir =>
     chk (f.metaFile == none && f.runs == w.runs) "previous-run-overwritten"
